@@ -97,16 +97,67 @@ def run(ctx):
         table[kind] = {"iter": "leaf" if it_leaf else "container", "map": "leaf" if mp_leaf else "container"}
         r1.check(it_leaf == mp_leaf, f"{m.rel}:nested:{kind}:container-agreement", f"a {kind} is a {'leaf' if it_leaf else 'container'} for iter_nested_value but a {'leaf' if mp_leaf else 'container'} for map_nested_value: expressions inside it are found but not replaced (or the reverse)", m.rel, it.lineno)
         if not it_leaf and not mp_leaf:
+            f0 = mp.args.args[0].arg
+
+            def rec(node, argsrc):
+                """node is exactly map_nested_value(func, <argsrc>) (unconditional recursion on that child)."""
+                return isinstance(node, ast.Call) and call_name(node) == "map_nested_value" and len(node.args) == 2 and src(node.args[0]) == f0 and src(node.args[1]) == argsrc and not node.keywords
+
+            def comp_ok(comp, iter_src):
+                if not isinstance(comp, (ast.ListComp, ast.SetComp, ast.GeneratorExp)) or len(comp.generators) != 1:
+                    return False
+                g = comp.generators[0]
+                return src(g.iter) == iter_src and not g.ifs and rec(comp.elt, src(g.target))
+
+            ret = next((b for b in mb if isinstance(b, ast.Return)), None)
+            v = ret.value if ret is not None else None
+            # iterator side: every child is yielded as a non-leaf, without filter
+            def yields_all(body, iter_src):
+                for st in body:
+                    if isinstance(st, ast.For) and src(st.iter) == iter_src and len(st.body) == 1 and isinstance(st.body[0], ast.Expr) and isinstance(st.body[0].value, ast.Yield):
+                        y = st.body[0].value.value
+                        if isinstance(y, ast.Tuple) and src(y.elts[0]) == "False" and src(y.elts[1]) == src(st.target):
+                            return True
+                return False
+
             if kind == "dict":
-                ok = f"{it_v}.keys()" in ibt and f"{it_v}.values()" in ibt and "map_nested_value(func, key)" in mbt and "map_nested_value(func, val)" in mbt
-                r1.check(ok, f"{m.rel}:nested:dict:children", "dict keys and values are not both visited and both mapped", m.rel, it.lineno)
+                ok_it = yields_all(ib, f"{it_v}.keys()") and yields_all(ib, f"{it_v}.values()")
+                ok_mp = isinstance(v, ast.DictComp) and len(v.generators) == 1 and src(v.generators[0].iter) == f"{mp_v}.items()" and not v.generators[0].ifs
+                if ok_mp:
+                    kt, vt = [src(e) for e in v.generators[0].target.elts]
+                    ok_mp = rec(v.key, kt) and rec(v.value, vt)
+                r1.check(ok_it and ok_mp, f"{m.rel}:nested:dict:children", "dict keys and values are not all yielded by the iterator and each mapped by an unconditional recursive call (a key/value kind that the iterator descends into would reach func as a whole)", m.rel, mp.lineno)
             elif kind == "dataclass":
-                ok = f"dataclasses.fields({it_v})" in ibt and "if field.init" in mbt and "if not field.init" in mbt and mbt.count(f"dataclasses.fields({mp_v})") >= 2 and "setattr(" in mbt
-                flt = [n for b in ib for n in ast.walk(b) if isinstance(n, ast.For) and (isinstance(n.body[0], ast.If) if n.body else False)]
-                r1.check(ok and not flt, f"{m.rel}:nested:dataclass:children", "dataclass fields are not all visited by the iterator and all (init through the constructor, non-init through setattr) rebuilt by the mapper", m.rel, it.lineno)
+                ok_it = False
+                for st in ib:
+                    if isinstance(st, ast.For) and src(st.iter) == f"dataclasses.fields({it_v})" and len(st.body) == 1 and isinstance(st.body[0], ast.Expr) and isinstance(st.body[0].value, ast.Yield):
+                        y = st.body[0].value.value
+                        ok_it = isinstance(y, ast.Tuple) and src(y.elts[0]) == "False" and src(y.elts[1]) == f"getattr({it_v}, {src(st.target)}.name)"
+                ok_init = ok_non = False
+                for n in ast.walk(ast.Module(body=mb, type_ignores=[])):
+                    if isinstance(n, ast.DictComp) and len(n.generators) == 1 and src(n.generators[0].iter) == f"dataclasses.fields({mp_v})":
+                        g = n.generators[0]
+                        fv = src(g.target)
+                        ok_init = [src(i) for i in g.ifs] == [f"{fv}.init"] and src(n.key) == f"{fv}.name" and rec(n.value, f"getattr({mp_v}, {fv}.name)")
+                    if isinstance(n, ast.For) and src(n.iter) == f"dataclasses.fields({mp_v})" and len(n.body) == 1 and isinstance(n.body[0], ast.If):
+                        fv = src(n.target)
+                        iff = n.body[0]
+                        if src(iff.test) == f"not {fv}.init" and len(iff.body) == 1 and isinstance(iff.body[0], ast.Expr) and isinstance(iff.body[0].value, ast.Call):
+                            c = iff.body[0].value
+                            if call_name(c) in ("setattr", "object.__setattr__") and len(c.args) == 3 and src(c.args[1]) == f"{fv}.name" and rec(c.args[2], f"getattr({mp_v}, {fv}.name)"):
+                                ok_non = True
+                r1.check(ok_it and ok_init and ok_non, f"{m.rel}:nested:dataclass:children", "dataclass fields are not all yielded by the iterator and all rebuilt by unconditional recursion (init fields through the constructor, non-init fields through setattr)", m.rel, mp.lineno)
             else:
-                ok = f"in {it_v}" in ibt and f"in {mp_v}" in mbt
-                r1.check(ok, f"{m.rel}:nested:{kind}:children", "items are not iterated directly in both traversals", m.rel, it.lineno)
+                ok_it = yields_all(ib, it_v)
+                if kind in ("list", "set", "list-subclass"):
+                    ok_mp = comp_ok(v, mp_v)
+                elif kind == "tuple":
+                    ok_mp = isinstance(v, ast.Call) and call_name(v) == "tuple" and len(v.args) == 1 and comp_ok(v.args[0], mp_v)
+                elif kind == "namedtuple":
+                    ok_mp = isinstance(v, ast.Call) and src(v.func) == mp_t and len(v.args) == 1 and isinstance(v.args[0], ast.Starred) and comp_ok(v.args[0].value, mp_v)
+                else:
+                    ok_mp = False
+                r1.check(ok_it and ok_mp, f"{m.rel}:nested:{kind}:children", f"items of a {kind} are not all yielded by the iterator and each mapped by an unconditional recursive call", m.rel, mp.lineno)
     ctx.extra["kind_table"] = table
     ctx.extra["exhaustive"] = True
 
@@ -133,6 +184,16 @@ def run(ctx):
     f0 = mp.args.args[0].arg
     rec = [c for c in calls_in(mp) if call_name(c) == "map_nested_value"]
     r2.check(len(rec) >= 7 and all(c.args and src(c.args[0]) == f0 for c in rec), f"{m.rel}:map_nested_value:recursion", "a recursive call does not pass the mapped function unchanged", m.rel, mp.lineno)
+
+    r4 = ctx.rule("C19.4", "dataclass rebuild works for frozen and slotted dataclasses (which the iterator traverses)", floor=2)
+    _, dcb = arm(mp_arms, "dataclass", mp_t, mp_v)
+    plain = [c for b in dcb for c in ast.walk(b) if isinstance(c, ast.Call) and call_name(c) == "setattr"]
+    r4.check(not plain, f"{m.rel}:map_nested_value:dataclass:frozen-safe", "non-init fields are restored with plain setattr(): a frozen dataclass with a non-init field raises FrozenInstanceError in map_nested_value although iter_nested_value traverses it", m.rel, mp.lineno)
+    dict_uses = [n for b in dcb for n in ast.walk(b) if isinstance(n, ast.Attribute) and n.attr == "__dict__"]
+    guarded = True
+    if dict_uses:
+        guarded = any(isinstance(n, ast.If) and "hasattr(" in src(n.test) and "__dict__" in src(n.test) and all(any(u is x for x in ast.walk(n)) for u in dict_uses) for b in dcb for n in ast.walk(b))
+    r4.check(guarded, f"{m.rel}:map_nested_value:dataclass:slots-safe", "the rebuild reads __dict__ unconditionally: a dataclass with __slots__ raises AttributeError in map_nested_value although iter_nested_value traverses it", m.rel, mp.lineno)
 
     r3 = ctx.rule("C19.3", "leaf iterator visits every child; evaluate maps and iterates one structure", floor=2)
     inv = m.func("iter_nested_value")
